@@ -21,7 +21,10 @@ def dump (s : State) : String :=
   let objs := (List.range s.nextObj).filter fun o => s.alive o
   let a := ",".intercalate (objs.map toString)
   let c := ",".intercalate (objs.map fun o => s!"{o}:{s.cnt o}:{s.fld o}")
-  s!"T[{t}] A[{a}] C[{c}]"
+  -- G[..]: the setter-backed `target` field ("t<k>" is k, never set = 0) and the cached targetname
+  -- (`TargetComponent::GetTargetName`, names as in T[..]; the empty resolvable reads as "" = 1)
+  let g := ",".intercalate (objs.map fun o => s!"{o}:{s.tgt o}:{s.comp o}")
+  s!"T[{t}] A[{a}] C[{c}] G[{g}]"
 
 def parseName (t : String) : Option Name := do
   let n ← t.toNat?
@@ -68,6 +71,8 @@ def parseStmt : List String → Option Stmt
   | ["fanname", x, n] => do some (.fanName (← parseSrc x) (← parseName n))
   | ["fandelete", x] => do some (.fanDelete (← parseSrc x))
   | ["fieldset", x, v] => do some (.fieldSet (← parseSrc x) (← v.toNat?))
+  | ["fieldtarget", x, v] => do some (.fieldSetter (← parseSrc x) (.target (← v.toNat?)))
+  | ["fieldname", x, n] => do some (.fieldSetter (← parseSrc x) (.name (← parseName n)))
   | t => (parseAct t).map .act
 
 def flag (t : String) (key : String) : Option Nat :=
